@@ -7,7 +7,9 @@
                               spec's symbolic decoding, only with each other)
               u            -- observed ffi.unpack(p, n):           [st, vals]
               l            -- observed [p[i] for i in range(n)]:   [st, vals] (joined for chars)]
-   Verdicts: "differs"  u is not the element-wise result l (nor, for 2-byte characters, its
+   (mem may be longer than n*sz: the bytes after the n items are there, and must not matter.)
+   Verdicts: "units"    2-byte characters: the result does not encode exactly the items 0..n-1 -> violation
+             "differs"  u is not the element-wise result l (nor, for 2-byte characters, its
                         UTF-16 reading)                              -> violation of C18
              "decode"   u = l but the spec's decoding of the bytes is different   -> note only
    One <<"VERDICT", k, verdict, casenum>> per record that is not ok, then <<"CHECKED", n, cases>>. *)
@@ -21,7 +23,8 @@ AllowedFrom(t, l) == IF t.cls = "char" /\ t.sz = 2 /\ l.st = "ok" THEN {l, [st |
 
 Verdict(r) ==
   LET t == TyOf(r)  u == Norm(r.u)  l == Norm(r.l) IN
-  IF u \notin AllowedFrom(t, l) THEN "differs"
+  IF ~UnitsAreItems(t, r.mem, r.n, u) THEN "units"
+  ELSE IF u \notin AllowedFrom(t, l) THEN "differs"
   ELSE IF ~r.nan /\ l # Elementwise(t, r.mem, r.n) THEN "decode"
   ELSE "ok"
 
